@@ -169,7 +169,7 @@ structure ScopeOk (used raws : List Name) (r : List Name × List Name) : Prop wh
   len : r.1.length = raws.length
   only : ∀ x ∈ r.2, x ∈ used ∨ x ∈ r.1.map lower
 
-theorem assignScope_ok : ∀ (raws used : List Name), ScopeOk used raws (assignScope used raws) := by
+theorem assignScope_ok (cfg : SanCfg) : ∀ (raws used : List Name), ScopeOk used raws (assignScope cfg used raws) := by
   intro raws
   induction raws with
   | nil =>
@@ -178,8 +178,8 @@ theorem assignScope_ok : ∀ (raws used : List Name), ScopeOk used raws (assignS
         by simp [assignScope], fun x h => Or.inl h⟩
   | cons r rs ih =>
       intro used
-      have hp := pick_fresh used (sanitize r)
-      have h := ih (lower (pick used (sanitize r)) :: used)
+      have hp := pick_fresh used (sanitizeWith cfg r)
+      have h := ih (lower (pick used (sanitizeWith cfg r)) :: used)
       simp only [assignScope]
       refine ⟨?_, ?_, ?_, ?_, ?_, ?_⟩
       · intro u hu
@@ -297,17 +297,31 @@ theorem squeeze_fresh : ∀ (cs : List Char) (pend : Bool),
 
 theorem basicId_unnamed : basicId unnamed = true := by decide
 
-theorem basicId_sanitize (raw : Name) : basicId (sanitize raw) = true := by
-  unfold sanitize
-  rcases squeeze_fresh raw false with h | ⟨c, rest, h, hc, hr⟩
-  · rw [h]; exact basicId_unnamed
+theorem basicId_sanitizeWith (cfg : SanCfg) (hc : goodCfg cfg = true) (raw : Name) :
+    basicId (sanitizeWith cfg raw) = true := by
+  unfold sanitizeWith
+  simp only [goodCfg, Bool.and_eq_true] at hc
+  rcases squeeze_fresh raw false with h | ⟨c, rest, h, hc1, hr⟩
+  · rw [h]; exact hc.1
   · rw [h]
-    simp only [fixStart]
+    simp only [fixStartWith]
     split
     · rename_i hl
       simp [basicId, hl, hr]
-    · have hn : isLetter 'n' = true := by decide
-      simp [basicId, hn, scan, hc, hr]
+    · cases hp : cfg.pre with
+      | nil => simp [hp] at hc
+      | cons p ps =>
+          have h2 := hc.2
+          rw [hp] at h2
+          simp only [Bool.and_eq_true] at h2
+          simp only [List.cons_append, basicId, Bool.and_eq_true]
+          refine ⟨h2.1, scan_append ps false (c :: rest) h2.2 ?_⟩
+          simp [scan, hc1, hr]
+
+theorem goodCfg_default : goodCfg defaultCfg = true := by decide
+
+theorem basicId_sanitize (raw : Name) : basicId (sanitize raw) = true :=
+  basicId_sanitizeWith defaultCfg goodCfg_default raw
 
 theorem basicId_pick (used : List Name) (base : Name) (h : basicId base = true) :
     basicId (pick used base) = true := by
@@ -321,7 +335,8 @@ theorem basicId_pick (used : List Name) (base : Name) (h : basicId base = true) 
         exact ⟨h.1, scan_append cs false _ h.2 (scan_digits _)⟩
   · exact h
 
-theorem assignScope_basicId : ∀ (raws used : List Name), ∀ n ∈ (assignScope used raws).1, basicId n = true := by
+theorem assignScope_basicId (cfg : SanCfg) (hc : goodCfg cfg = true) :
+    ∀ (raws used : List Name), ∀ n ∈ (assignScope cfg used raws).1, basicId n = true := by
   intro raws
   induction raws with
   | nil => intro used n hn; simp [assignScope] at hn
@@ -329,7 +344,7 @@ theorem assignScope_basicId : ∀ (raws used : List Name), ∀ n ∈ (assignScop
       intro used n hn
       simp only [assignScope] at hn
       rcases List.mem_cons.mp hn with rfl | hn
-      · exact basicId_pick _ _ (basicId_sanitize r)
+      · exact basicId_pick _ _ (basicId_sanitizeWith cfg hc r)
       · exact ih _ n hn
 
 end CohdlVerif.C06
